@@ -98,6 +98,13 @@ type thr struct {
 	probed bool
 	waitID string // the log id it waits for (kv of the "wait" point)
 	selected string // which branch of the lock select it took last: lock.select.done | lock.select.acquired
+	// failNext: armed by the choice read_fail(t): the next store read of this request fails with ErrTransient.
+	// readFailed: a read has just been failed; the yield point that directly follows a failed read ("ik.lookup",
+	// "ref.lookup", "revert.read", or "unlocked" inside the unlock completion) decides nothing and is not parked on: for
+	// the schedule (and the model) the failing read and what the code does with the error are ONE step.
+	failNext   bool
+	readFailed bool
+	failedKind string
 }
 
 type note struct {
@@ -143,6 +150,9 @@ type Sched struct {
 	AllowCrash bool  // enable crash choices
 	AllowCancel bool // enable cancellation of a request's context (at most MaxCancels times)
 	AllowFailCtx bool // enable a store failure whose error wraps context.Canceled
+	AllowReadFail bool // enable read_fail(t): the next store read of request t fails (at most MaxReadFails times)
+	ReadFails    int
+	MaxReadFails int
 	ReadFail  map[string]bool // kinds of store read that fail with a transient error (see Store.ReadFail)
 	Crashes   int
 	MaxCrashes int
@@ -181,6 +191,83 @@ func kvMap(kv []any) (map[string]string, any) {
 // points reached while a mutex of the code under test is held, or that need no scheduling decision
 var noPark = map[string]bool{"lock.grant": true, "lock.release": true, "lock.fast": true, "lock.select.acquired": true, "lock.select.done": true}
 
+// the yield points that directly follow a store read (or, for "unlocked", the error path of the read under the locks)
+var afterFailedRead = map[string]bool{"ik.lookup": true, "ref.lookup": true, "revert.read": true, "unlocked": true}
+
+// consumeFail: called by the store's read methods; true when this read has to fail (read_fail(t) was chosen for the
+// request the context belongs to).
+func (s *Sched) consumeFail(ctx context.Context, kind string) bool {
+	tid, ok := ctx.Value(tidKey).(int)
+	if !ok || tid < 0 || tid >= len(s.threads) {
+		return false
+	}
+	s.mu.Lock()
+	defer s.mu.Unlock()
+	t := s.threads[tid]
+	if !t.failNext {
+		return false
+	}
+	t.failNext, t.readFailed, t.failedKind = false, true, kind
+	s.Trace = append(s.Trace, Event{Tid: tid, Point: "store.read.failed", KV: map[string]string{"kind": kind}})
+	return true
+}
+
+// readsNext: the region the parked request runs next performs a store read (what read_fail(t) needs). Static knowledge
+// of the write path; an armed failure that is not consumed by the region is a harness fault, so a wrong entry here
+// shows up at once.
+func (s *Sched) readsNext(t *thr) string {
+	r := t.req
+	metaOnTx := (r.Kind == "savemeta" || r.Kind == "delmeta") && r.Target == ledger.MetaTargetTypeTransaction
+	readsMeta := r.Kind == "create" && strings.Contains(r.Script, "meta(")
+	switch t.parkedAt {
+	case "ik.taken":
+		return "ik"
+	case "ref.taken":
+		return "ref"
+	case "revert.taken":
+		return "tx"
+	case "ik.lookup":
+		if t.kv["hit"] == "false" && metaOnTx {
+			return "tx"
+		}
+		if t.kv["hit"] == "false" && readsMeta && r.Reference == "" {
+			return "account"
+		}
+	case "ref.lookup":
+		if t.kv["hit"] == "false" && readsMeta {
+			return "account"
+		}
+	case "locked":
+		// ResolveBalances reads the balance of every bounded non-world source
+		switch r.Kind {
+		case "create":
+			ps := r.ModelPostings
+			if len(ps) == 0 {
+				ps = r.Postings
+			}
+			for _, p := range ps {
+				if p.Source != "world" && !r.Unb {
+					return "balance"
+				}
+			}
+		case "revert":
+			if r.Force {
+				return ""
+			}
+			for _, l := range s.Disk.snapshot() {
+				if tx := txOf(l); tx != nil && tx.ID.Cmp(big.NewInt(r.RevertID)) == 0 {
+					for _, p := range tx.Postings {
+						if p.Destination != "world" {
+							return "balance"
+						}
+					}
+				}
+			}
+		}
+	}
+	return ""
+}
+
 func (s *Sched) yield(ctx context.Context, point string, kv ...any) {
 	tid, ok := ctx.Value(tidKey).(int)
 	if !ok {
@@ -204,6 +291,12 @@ func (s *Sched) yield(ctx context.Context, point string, kv ...any) {
 		return
 	}
 	t := s.threads[tid]
+	if t.readFailed {
+		t.readFailed = false // only the first parking point after the failed read
+		if afterFailedRead[point] {
+			return
+		}
+	}
 	s.notes <- note{tid: tid, point: point, kv: m, intent: intent, gen: gen}
 	<-t.resume
 }
@@ -265,7 +358,7 @@ func (m monitor) DeletedMetadata(ctx context.Context, targetType string, targetI
 
 func New(disk *Disk, reqs []Req) *Sched {
 	installOnce.Do(func() { verifhook.SetHandler(handler) })
-	s := &Sched{notes: make(chan note, 64), Disk: disk, granted: map[any]bool{}, MaxCrashes: 1, MaxCancels: 1}
+	s := &Sched{notes: make(chan note, 64), Disk: disk, granted: map[any]bool{}, MaxCrashes: 1, MaxCancels: 1, MaxReadFails: 1}
 	for i, r := range reqs {
 		s.threads = append(s.threads, &thr{id: i, req: r, resume: make(chan struct{})})
 	}
@@ -399,6 +492,9 @@ func classify(err error) string {
 	if msg == "already taken" {
 		return "ik-busy"
 	}
+	if errors.Is(err, ErrTransient) {
+		return "store-read" // an injected read failure came back to the caller
+	}
 	// DefaultLocker.Lock gave up because the request's context was done (exec wraps the locker's error)
 	if errors.Is(err, context.Canceled) && strings.HasPrefix(msg, "locking accounts for tx processing: locking accounts:") {
 		return "lock-cancelled"
@@ -479,6 +575,9 @@ func (s *Sched) Enabled() []Choice {
 			}
 		default:
 			cs = append(cs, Choice{Kind: "resume", Tid: t.id})
+		}
+		if s.AllowReadFail && s.ReadFails < s.MaxReadFails && s.readsNext(t) != "" {
+			cs = append(cs, Choice{Kind: "read_fail", Tid: t.id})
 		}
 	}
 	if s.workerParked {
@@ -639,6 +738,20 @@ func (s *Sched) do(c Choice) Choice {
 		s.mu.Lock()
 		if enq && t.selected == "lock.select.done" {
 			c.Via = "cancelled"
+		}
+		s.mu.Unlock()
+	case "read_fail":
+		// the region the request runs next reads the store: that read fails
+		t := s.threads[c.Tid]
+		s.mu.Lock()
+		t.failNext = true
+		s.mu.Unlock()
+		s.ReadFails++
+		t.resume <- struct{}{}
+		s.settle(t.id)
+		s.mu.Lock()
+		if t.failNext && s.Fault == "" {
+			s.Fault = fmt.Sprintf("read_fail(%d) at %s: the region performed no store read", t.id, t.parkedAt)
 		}
 		s.mu.Unlock()
 	case "persist_ok":
